@@ -54,7 +54,9 @@ CLAIMED = {
         text="Contract-based deductive proof of the conservation FORM from the public closures (single-valued ENO3 face flux in "
              "every upwind branch, every axis, 2-D/3-D; diffusion and curl-type forcing updates as telescoping differences), all "
              "values and shapes. Grid-sum invariance: exhaustive symbolic check on enumerated small grids (bounded shapes, all "
-             "values) plus the telescoping lemma M1 for general shapes; the step-level operator sequence is the C01 proof.",
+             "values; advection+diffusion under several upwind patterns, the 3-D Laplacian filter of orders 1-2 with arbitrary prior "
+             "content of its work buffers) plus the telescoping lemma M1 for general shapes; the step-level operator sequence is "
+             "the C01 proof.",
         note=TRUST + " Trusted lemma M1 (telescoping sums over a box). The step-level reach/margin bookkeeping is argued from the "
              "C01 operator sequence, not separately discharged.",
         technique="symbolic execution + exact polynomial identity; bounded-shape exhaustive sums",
@@ -71,7 +73,11 @@ CLAIMED = {
         text="Contract-based deductive proof of the real support / cosine / Peskin weight closures and the interpolation closure "
              "(numba neutralised) for a marker in a SYMBOLIC cell of a grid of symbolic extent with symbolic in-cell offset "
              "(on-centre and strictly-inside cases both explored) and symbolic dx: nearest index, signed distances, closed-form "
-             "weights, non-negativity, partition of unity, Peskin first moment, exact interpolation of constants / affine fields.",
+             "weights, non-negativity, partition of unity, Peskin first moment, exact interpolation of constants / affine fields. "
+             "The communicator CLASS constructor is checked (after other communicators were constructed in the same process) for "
+             "handing every generator this instance's own parameters. Arithmetic is exact: the 'up to rounding / one ulp either side' "
+             "part of the property is covered only by a BOUNDED native stand-in (cell centres, faces and their floating-point "
+             "neighbours, both precisions), labelled as such and not counted as proved.",
         note=TRUST + " sqrt axiomatised exactly (t>=0, t^2=arg); cos by quarter-turn reduction and M6 facts. Marker counts 1-2 "
              "executed; independence of markers follows from the closed forms (each marker's outputs mention only its inputs).",
         technique="symbolic execution of the real njit closures on object arrays + normaliser + z3",
@@ -92,8 +98,9 @@ CLAIMED = {
              "frames (quaternion parametrisation), velocities, masses, radii and marker forces: net force = -sum of marker "
              "forces; net moment about an arbitrary point of nodal forces + lab-frame couples = -moment of marker forces; rigid-"
              "body power identity; FlowForces adds the wrench to the body's external loads; interaction wiring against a grid stub.",
-        note=TRUST + " Layouts bounded (2 elements; 3 markers; one representative surface layout with symbolic cap ratios); "
-             "constructors of the grids bypassed (layout caches set symbolically). Trusted lemma M5. With C07 the fluid-side "
+        note=TRUST + " Layouts bounded (2 elements, thorough 1-4; 3 markers with symbolic offsets; one representative surface "
+             "layout with symbolic cap ratios; plus the layout produced by the REAL constructor of every derived grid class on one "
+             "concrete small body, 5-9 markers, with the body state then symbolised). Trusted lemma M5. With C07 the fluid-side "
              "integral equals the marker total.",
         technique="symbolic execution of the real methods on object arrays + exact polynomial identity modulo |q|^2",
         ref="5-C08"),
@@ -125,7 +132,9 @@ CLAIMED = {
              "and the residual of the discrete Neumann problem (-Lap_h u = f - mean f, zero mean, real result of the working precision) "
              "are covered by a BOUNDED native stand-in on small non-cubic grids, labelled as such and not counted as proved.",
         note=TRUST + " Assumed: LAPACK (eigh, inv), argsort, lemma M9. Sizes of the symbolic part bounded ((2,3),(3,2),(2,3,2); "
-             "thorough adds (3,2,4)); the all-n mode-product abstract domain of the design was not built.",
+             "thorough adds (3,2,4)); the all-n mode-product abstract domain of the design was not built. eigh/inv stubs are functions of "
+             "their argument and are matched to axes by that argument (axes with equal operators may share a decomposition). The "
+             "native stand-in includes solvers of the other precision constructed earlier in the same process.",
         technique="symbolic execution of the real contraction calls on object arrays + exact polynomial identity; bounded native residual check",
         ref="5-C11"),
     "C12": dict(
@@ -170,8 +179,10 @@ CLAIMED = {
              "NaN/inf/denormals by parametricity): sources untouched by save, documented on-disk names and shapes, load(save(x)) "
              "restores every field, grid and time stamp, every missing dataset and every differing grid parameter raises. "
              "Shapes and registries are an enumerated family (dim 2/3, N = 1..5 incl. N == dim, 1-2 grids, grids without fields, "
-             "equal names on two grids): all contents, bounded layouts. Native replay with real h5py and NaN/inf payloads.",
-        note=TRUST + " Assumed: h5py contract (verbatim storage, visit enumerates all paths), backed by the native runs with the "
+             "equal names on two grids, strided views, column-major arrays, values written after registration): all contents, bounded "
+             "layouts. Native replay with real h5py and NaN/inf payloads.",
+        note=TRUST + " Assumed: h5py contract (verbatim storage, visit enumerates all paths, read_direct/write_direct need "
+             "C-contiguous arrays), backed by the native runs with the "
              "real h5py. 'differ' = beyond numpy.allclose default tolerance. Level: proof over values, bounded (exhaustive) layouts.",
         technique="parametric symbolic execution of the real IO methods against an h5py contract stub",
         ref="5-C17"),
